@@ -11,6 +11,7 @@ import traceback
 from verif import grammar as G
 from verif.bounded import BoundedCheck, BoundedResult, Violation
 from contracts.c13_effects import CONTRACTS as EFFECT_CONTRACTS
+from props.parser_bounded import TokeniserDifferential
 from verif.spec import PropertySpec
 
 ALPHABET = ['Y', 'x', '1', '_', ' ', '\n', '=', '+', '-', '*', '/', '.', ',', '(', ')', '[', ']', '{', '}', '<', '>', '`', '#', "'", 'é']
@@ -106,7 +107,7 @@ class ParserTotal(BoundedCheck):
             yield ''.join(toks)
         if self.shard == 0:
             for s in ('Y = {}', 'Y = {a} + }{', 'Y = {0}', 'Y = 1/0', 'Y = "a" + 1', 'Y = print(1)', '```\nx=1', 'é = 1', 'Y = H[--1]', 'Y = X\nY = X', '`self.Q = 1`\n`self.Q = 1`',
-                      '```\nscale_ = 0.5\n```', '`q_ = 3`', 'Y = X\n`import_marker_ = [1]`', '```\nglobal g_\ng_ = 1\n```'):
+                      'Y = X + X(1)', 'H = H(1)', 'Y = X(1) + X', 'b=A(1)+A', 'Y = f(X)\nZ = f', 'Y = exp + exp(X)', '```\nscale_ = 0.5\n```', '`q_ = 3`', 'Y = X\n`import_marker_ = [1]`', '```\nglobal g_\ng_ = 1\n```'):
                 yield s
 
     def check(self, s: str, res: BoundedResult):
@@ -190,7 +191,7 @@ class ParserTotal(BoundedCheck):
 
 NSHARDS = 14
 PROPERTY = PropertySpec(
-    id='C13', contracts=list(EFFECT_CONTRACTS), bounded=[ParserTotal(i, NSHARDS) for i in range(NSHARDS)], level='other',
+    id='C13', contracts=list(EFFECT_CONTRACTS), bounded=[ParserTotal(i, NSHARDS) for i in range(NSHARDS)] + [TokeniserDifferential()], level='other',
     explanation='Effect contract decided on the ast of the real parse_model / build_model: parse_model exec()s translated statement text with handlers for NameError and '
                 'SyntaxError only (recorded findings F13 / F13b, re-checked on every run); build_model executes only the class-definition text and turns SyntaxError into '
                 'BuildError. Totality, the raises clause on concrete inputs and the statement-count clause are decided by the bounded exhaustive run: every string of '
